@@ -214,46 +214,55 @@ def _run_inbound(rng, sizes, corrupt, reads, bit=None):
     return rec, problems
 
 
-async def _outbound(lens, rng):
+async def _outbound(lens, rng, pipeline=1):
     """A session of several requests (lengths `lens`) through the real send_bytes; one reference accessory with a
-    session-long counter decrypts them all.  Returns one record per request."""
+    session-long counter decrypts them all.  `pipeline` = k: k requests are written before the accessory answers any of
+    them (several callers on one protocol), then answered in order.  Returns one record per request."""
     a2c, c2a = os.urandom(32), os.urandom(32)
     proto, conn, tr, log = _mk_protocol(a2c, c2a)
     acc = A.SecureSession(a2c, c2a)
     out = []
-    for n in lens:
-        payload = bytes(rng.randrange(256) for _ in range(n))
-        ncalls0 = len(tr.calls)
-        nenc0 = len(proto._verif_enc_log)
-        c0 = len(acc.frames_received)
-        t = asyncio.ensure_future(proto.send_bytes(payload))
-        await asyncio.sleep(0)
-        calls = tr.calls[ncalls0:]
-        # the accessory answers: the request completes normally (no cancellation, the session lives on)
-        resp = H.response(204, b"", None)
-        try:
-            proto.data_received(acc.seal(resp))
-            await asyncio.wait_for(t, 1)
-        except BaseException as ex:  # noqa: BLE001
-            t.cancel()
-        problems = []
-        wire = b"".join(b"".join(c) for c in calls)
-        before = len(acc.frames_received)
-        got = None
-        try:
-            got = acc.open_stream(wire)
-        except ValueError as ex:
-            problems.append(str(ex))
-        frames = acc.frames_received[before:]
-        if got is not None and got != payload:
-            problems.append("reference accessory decrypted different bytes than the request")
-        if acc.inbuf:
-            problems.append(f"{len(acc.inbuf)} trailing bytes after the last complete frame")
-            acc.inbuf.clear()
-        rec = {"kind": "out", "n": n, "frames": frames, "calls": len(calls), "c0": c0,
-               "counters": proto._verif_enc_log[nenc0:]}
-        out.append((rec, problems))
-        if problems:
+    lens = list(lens)
+    while lens:
+        group, lens = lens[:pipeline], lens[pipeline:]
+        pend = []
+        for n in group:
+            payload = bytes(rng.randrange(256) for _ in range(n))
+            ncalls0 = len(tr.calls)
+            nenc0 = len(proto._verif_enc_log)
+            t = asyncio.ensure_future(proto.send_bytes(payload))
+            await asyncio.sleep(0)
+            pend.append((n, payload, t, tr.calls[ncalls0:], proto._verif_enc_log[nenc0:]))
+        failed = False
+        for n, payload, t, calls, counters in pend:
+            problems = []
+            c0 = len(acc.frames_received)
+            wire = b"".join(b"".join(c) for c in calls)
+            got = None
+            try:
+                got = acc.open_stream(wire)
+            except ValueError as ex:
+                problems.append(str(ex))
+            frames = acc.frames_received[c0:]
+            if got is not None and got != payload:
+                problems.append("reference accessory decrypted different bytes than the request")
+            if acc.inbuf:
+                problems.append(f"{len(acc.inbuf)} trailing bytes after the last complete frame")
+                acc.inbuf.clear()
+            # the accessory answers: the request completes normally (no cancellation, the session lives on)
+            try:
+                proto.data_received(acc.seal(H.response(204, b"", None)))
+                await asyncio.wait_for(t, 1)
+            except BaseException:  # noqa: BLE001
+                t.cancel()
+            rec = {"kind": "out", "n": n, "frames": frames, "calls": len(calls), "c0": c0, "counters": counters}
+            if pipeline > 1:
+                rec["pipelined"] = pipeline
+            out.append((rec, problems))
+            failed = failed or bool(problems)
+        if failed:
+            for _, _, t, _, _ in pend:
+                t.cancel()
             break
     return out
 
@@ -285,7 +294,9 @@ def _replay(ctx):
             if rec.get("kind") == "in":
                 r, problems = _run_inbound(ctx.rng, rec["sizes"], tuple(rec["corrupt"]), rec["reads"])
                 return [(r, problems)]
-            return await _outbound([rec["n"]] if rec.get("c0", 0) == 0 else [1024, rec["n"]], ctx.rng)
+            k = int(rec.get("pipelined", 1))
+            lens = [rec["n"]] if rec.get("c0", 0) == 0 and k == 1 else [1024, rec["n"]]
+            return await _outbound(lens, ctx.rng, pipeline=k)
         out = loop.run_until_complete(go())
         recs = []
         for r, problems in out:
@@ -407,12 +418,15 @@ def run(ctx):
             sessions = [bnd, list(reversed(bnd)), [1024, 1], [2048, 2048, 7], [3072, 1024, 1024, 5]]
             for _ in range(ctx.pick(12, 150)):
                 sessions.append([rng.choice(bnd + [rng.randrange(1, 9000), 1024 * rng.randrange(1, 6)]) for _ in range(rng.randrange(2, 7))])
-            for lens in sessions:
-                for rec, problems in await _outbound(lens, rng):
+            for si, lens in enumerate(sessions):
+                # every third session is pipelined: 2 or 3 requests are written before the accessory answers the first
+                k = 1 if si % 3 else 2 + (si // 3) % 2
+                for rec, problems in await _outbound(lens, rng, pipeline=k):
                     recs.append(rec)
-                    ctx.case(("out", rec["n"], rec["c0"]))
+                    ctx.case(("out", rec["n"], rec["c0"], k))
                     for pr in problems:
-                        ctx.violation(f"outbound framing of a {rec['n']}-byte request (session {lens}): {pr}", rec)
+                        ctx.violation(f"outbound framing of a {rec['n']}-byte request (session {lens}, {k} request(s) written "
+                                      f"before the first answer): {pr}", rec)
         loop.run_until_complete(go())
         # ---------------- validate everything with TLC
         tf = os.path.join(tmp, "recs.ndjson")
